@@ -41,6 +41,8 @@ pub enum Mutation {
     HeaderSuffix(u16, u8),
     BodyFlip(u16),
     BodyAppend(u8),
+    /// put something in FRONT of the body that a lenient reader might skip: byte-order marks, blanks, line breaks
+    BodyPrefix(u8),
     BodyTruncate(u16),
     /// shift the stated timestamp by this many seconds, keep the old signature
     Timestamp(i8),
@@ -92,6 +94,7 @@ pub fn mutation() -> BoxedStrategy<Mutation> {
         1 => (any::<u16>(), any::<u8>()).prop_map(|(a, b)| HeaderSuffix(a, b)),
         2 => any::<u16>().prop_map(BodyFlip),
         1 => any::<u8>().prop_map(BodyAppend),
+        2 => any::<u8>().prop_map(BodyPrefix),
         1 => any::<u16>().prop_map(BodyTruncate),
         2 => prop_oneof![Just(1i8), Just(-1), Just(60), Just(-60), -120i8..120].prop_map(Timestamp),
         1 => any::<bool>().prop_map(TimestampLeapSecond),
@@ -341,6 +344,12 @@ pub fn apply(m: &Mutation, plan: &Plan, built: &Built) -> Option<Case> {
             case.req.body.0[j] ^= 1;
         }
         BodyAppend(b) => case.req.body.0.push(*b),
+        BodyPrefix(k) => {
+            const PRE: &[&[u8]] = &[b"\xEF\xBB\xBF", b"\xEF\xBB\xBF\xEF\xBB\xBF", b"\xFF\xFE", b"\xFE\xFF", b" ", b"\n", b"\r\n", b"\t", b"\0", b"%EF%BB%BF", b"?", b"\xC2\xA0", b"\xE2\x80\x8B"];
+            let mut nb = PRE[*k as usize % PRE.len()].to_vec();
+            nb.extend_from_slice(&case.req.body.0);
+            case.req.body = B(nb);
+        }
         BodyTruncate(pos) => {
             if case.req.body.0.is_empty() {
                 return Option::None;
@@ -504,7 +513,7 @@ pub fn label(m: &Mutation) -> &'static str {
         UriChar(..) | UriInsert(..) | UriDelete(_) | ToggleTrailingSlash | PathSpaceToPlus => "uri",
         AppendParam(_) | DuplicateParam(_) | RemoveParam(_) => "param",
         HeaderByte(..) | HeaderCase(..) | HeaderAddValue(_) | HeaderRemove(_) | HeaderSwapValues(_) | HostPort(_) | HeaderSuffix(..) => "header",
-        BodyFlip(_) | BodyAppend(_) | BodyTruncate(_) => "body",
+        BodyFlip(_) | BodyAppend(_) | BodyTruncate(_) | BodyPrefix(_) => "body",
         Timestamp(_) | TimestampLeapSecond(_) => "timestamp",
         Credential(..) => "credential",
         ProviderSecret(_) | ProviderDerive(_) => "key",
